@@ -74,10 +74,11 @@ type Ctx struct {
 	tsubst      map[*types.TypeParam]types.Type
 	ghSorts     map[string]string // ghost variables with a raw SMT sort (e.g. the big-int heap)
 	usesBig     bool
+	rangeSeen   map[string]bool
 }
 
 func newCtx(w *World, specs *Specs, fnName string) *Ctx {
-	return &Ctx{w: w, specs: specs, sorts: newSorts(), fnName: fnName, counters: map[string]int{}, notes: map[string]bool{}, inlined: map[string]bool{}, dropped: map[string]bool{}, assumedContracts: map[string]bool{}, ufSig: map[string]string{}, globals: map[types.Object]string{}, strLits: map[string]string{}, rawSorts: map[types.Object]string{}, ghSorts: map[string]string{}}
+	return &Ctx{w: w, specs: specs, sorts: newSorts(), fnName: fnName, counters: map[string]int{}, notes: map[string]bool{}, inlined: map[string]bool{}, dropped: map[string]bool{}, assumedContracts: map[string]bool{}, ufSig: map[string]string{}, globals: map[types.Object]string{}, strLits: map[string]string{}, rawSorts: map[types.Object]string{}, ghSorts: map[string]string{}, rangeSeen: map[string]bool{}}
 }
 
 func (c *Ctx) fresh(prefix, sort string) string {
@@ -310,6 +311,12 @@ func (f *Frame) name(prefix string, v Val) Val {
 
 func (f *Frame) oblige(st *State, kind, anchor, goal string, pos token.Pos, src string) *Obligation {
 	if goal == "true" {
+		return nil
+	}
+	if f.c.contract != nil && f.c.contract.Glue && (kind == "panic" || kind == "call") {
+		// glue contract: only assertions, postconditions and frames are proved; absence of panics and
+		// callee preconditions inside this function are assumed (stated in evidence)
+		f.c.note(fmt.Sprintf("glue contract %s: no-panic and callee-precondition obligations inside it are assumed, not proved", f.c.fnName))
 		return nil
 	}
 	name := fmt.Sprintf("%s#%s:%s", f.c.fnName, kind, anchor)
